@@ -34,6 +34,9 @@ pub fn check(tier: Tier) -> Check {
     // identifier flavour: the counters start next to a boundary of their encodings (DESIGN 4)
     parts.push(Part::new("C10/quota", json!({"depth": tier.pick(5, 7), "r": 2, "ids": [65534, 1]}), 0, tier.pick(25, 400)));
     parts.push(Part::new("C10/quota", json!({"depth": tier.pick(5, 7), "r": 3, "ids": [254, 1]}), 0, tier.pick(25, 400)));
+    // publishes made before connect(): they count against the quota the CONNACK announces
+    parts.push(Part::new("C10/quota", json!({"depth": tier.pick(4, 6), "r": 1, "early": 3}), 0, tier.pick(25, 400)));
+    parts.push(Part::new("C10/quota", json!({"depth": tier.pick(4, 6), "r": 2, "early": 3}), 0, tier.pick(25, 400)));
     // operations issued on one long-lived handle and on clones of it
     parts.push(Part::new("C10/quota", json!({"depth": tier.pick(4, 6), "r": 2, "worker": true}), 0, tier.pick(25, 400)));
     // one Context, two connections: R1 on the first, R on the second
